@@ -145,7 +145,7 @@ struct Explorer {
 		std::string key0 = readerKey(*a0, f.vol);
 		// alphabet
 		std::vector<AOp> ops;
-		std::set<std::size_t> idx = { 0, 1, count, count + 1, SIZE_MAX };
+		std::set<std::size_t> idx = { 0, 1, count, count + 1, SIZE_MAX, std::size_t(1) << 32, (std::size_t(1) << 32) + 1, (std::size_t(1) << 32) + count, std::size_t(1) << 63 };   // incl. indices that are in range only modulo 2^32
 		if (count) idx.insert(count - 1);
 		if (count > 2) idx.insert(2);
 		std::set<std::string> names = { "absent.xyz", "" };
